@@ -744,6 +744,22 @@ func possibleStructType(tname syntax.TypeId, lookup *syntax.TypeLookup) bool {
 	return ok
 }
 
+// structMemberType returns the type of the given member of the struct type
+// with the given name.  If the type or the member is not known, it returns
+// the struct's own type name.
+func structMemberType(tname syntax.TypeId, lookup *syntax.TypeLookup, member string) syntax.TypeId {
+	if lookup != nil {
+		if t, ok := lookup.Get(tname).(*syntax.StructType); ok {
+			for _, m := range t.Members {
+				if m.Id == member {
+					return m.Tname
+				}
+			}
+		}
+	}
+	return tname
+}
+
 // Recursively search an expression to convert MapExp to struct types where
 // appropriate.  This should only get applied for expression types which are
 // parsed from json, as opposed to those parsed from mro.
@@ -822,15 +838,20 @@ func convertToExp(parser *syntax.Parser, split bool, val json.Marshaler,
 			Kind:  syntax.KindMap,
 			Value: make(map[string]syntax.Exp, len(val)),
 		}
-		if possibleStructType(tname, lookup) {
+		isStruct := possibleStructType(tname, lookup)
+		if isStruct {
 			res.Kind = syntax.KindStruct
 		} else if tname.MapDim > 0 {
 			tname.ArrayDim = tname.MapDim - 1
 			tname.MapDim = 0
 		}
 		for k, v := range val {
+			vtype := tname
+			if isStruct {
+				vtype = structMemberType(tname, lookup, k)
+			}
 			if e, err := convertToExp(parser, false,
-				v, tname, lookup); err != nil {
+				v, vtype, lookup); err != nil {
 				return &res, err
 			} else {
 				res.Value[k] = e
@@ -842,15 +863,20 @@ func convertToExp(parser *syntax.Parser, split bool, val json.Marshaler,
 			Kind:  syntax.KindMap,
 			Value: make(map[string]syntax.Exp, len(val)),
 		}
-		if possibleStructType(tname, lookup) {
+		isStruct := possibleStructType(tname, lookup)
+		if isStruct {
 			res.Kind = syntax.KindStruct
 		} else if tname.MapDim > 0 {
 			tname.ArrayDim = tname.MapDim - 1
 			tname.MapDim = 0
 		}
 		for k, v := range val {
+			vtype := tname
+			if isStruct {
+				vtype = structMemberType(tname, lookup, k)
+			}
 			if e, err := convertToExp(parser, false,
-				v, tname, lookup); err != nil {
+				v, vtype, lookup); err != nil {
 				return &res, err
 			} else {
 				res.Value[k] = e
